@@ -41,6 +41,7 @@ const (
 	compOpAll  = "_all"
 	compOpNone = "_none"
 	opNot      = "_not"
+	opOr       = "_or"
 	// it's just there for composite indexes. We construct a slice of value matchers with
 	// every matcher being responsible for a corresponding field in the index to match.
 	// For some fields there might not be any criteria to match. For examples if you have
@@ -726,7 +727,7 @@ type fieldFilterCond struct {
 // for each indexed field.
 // It returns a slice of fieldFilterCond, where each element corresponds to a field in the index.
 func (f *indexFetcher) determineFieldFilterConditions() ([]fieldFilterCond, error) {
-	if f.indexFilter == nil {
+	if f.indexFilter == nil || f.docFilter == nil {
 		return nil, nil
 	}
 
@@ -737,8 +738,12 @@ func (f *indexFetcher) determineFieldFilterConditions() ([]fieldFilterCond, erro
 		fieldInd := f.mapping.FirstIndexOfName(indexedField.Name)
 		var err error
 
+		// The conditions are looked up in the document filter itself and not in f.indexFilter: the
+		// per-field copies that make up f.indexFilter lose the _or structure (an _or whose other
+		// branches are on different fields is reduced to the single remaining branch), and a
+		// condition inside an _or does not restrict the result.
 		filter.TraverseProperties(
-			f.indexFilter.Conditions,
+			f.docFilter.Conditions,
 			func(prop *mapper.PropertyIndex, condMap map[connor.FilterKey]any) bool {
 				if fieldInd != prop.Index {
 					return true
@@ -776,6 +781,9 @@ func (f *indexFetcher) determineFieldFilterConditions() ([]fieldFilterCond, erro
 			// case index will do more harm. For example if we have _not: {_eq: 5} and the index
 			// fetches value 5, it will skip all documents with value 5, but we need to return them.
 			opNot,
+			// a condition inside an _or branch does not restrict the result: documents that do not
+			// satisfy it can still match through another branch, so it can't drive the index scan.
+			opOr,
 		)
 
 		// if after traversing the filter for the first field we didn't find any condition that can
